@@ -72,7 +72,8 @@ def load_known_findings():
 
 
 def finding_matches(entry, obligation, args):
-    if entry.get('obligation') and entry['obligation'] != obligation:
+    # entries of the other unit kinds (bounded / ground / frames) never excuse a refuted deductive obligation
+    if not entry.get('obligation') or entry['obligation'] != obligation:
         return False
     pred = entry.get('witness')
     if not pred:
@@ -167,7 +168,8 @@ def process_function(res, rep, contract, repo, findings, opts):
             args = model_to_args(r['model'], fn_args)
             spec = {'repo': repo, 'verif': VERIF, 'qual': rep.qual, 'scope': contract.scope,
                     'args': {k: v for k, v in args.items() if k != '__probes__'}, 'probes': args.get('__probes__', {}),
-                    'argorder': fn_args, 'ensures': contract.ensures, 'requires': contract.requires,
+                    'argorder': fn_args, 'ensures': list(contract.ensures) + list(contract.ghost.get('replay_ensures', [])),
+                    'generator': bool(contract.yield_ensures), 'requires': contract.requires,
                     'raises': contract.raises, 'builder': contract.build,
                     'obligation': name, 'property': pid, 'case': r['case'], 'kind': r['kind'], 'site': r['site'],
                     'note': r['note'], 'source_sha256': rep.sha256,
